@@ -12,6 +12,13 @@ for d in sorted(glob.glob(os.path.join(verif, "seeded", "*"))):
     r = subprocess.run([os.path.join(verif, "tools", "mutant.py"), os.path.join(d, "patch.diff"), prop], capture_output=True, text=True)
     line = (r.stdout.strip().splitlines() or ["?"])[-1]
     verdict = line.split()[0]
+    if meta.get("outside_property_note"):
+        ok = verdict == "MISSED"
+        if ok:
+            meta["checks"][prop]["verdict"] = "SILENT (outside what the property demands: " + meta["outside_property_note"].split(" (DESIGN")[0][:160] + ")"
+        json.dump(meta, open(os.path.join(d, "meta.json"), "w"), indent=1)
+        print(os.path.basename(d), "SILENT-BY-LEDGER" if ok else f"{verdict} (listed as outside the property)", flush=True)
+        continue
     if meta.get("neutralised_by"):
         # the change needs a defect that was repaired since: it no longer breaks the property, the check must stay silent
         ok = verdict == "MISSED"
